@@ -125,6 +125,8 @@ def run_shard(shard, ctx):
                     if tuple(sorted(kx)) != tuple(kx) or tuple(sorted(ky)) != tuple(ky):
                         ctx.count('permuted_order_cases')
                 res[op] = iso.to_ref(zip(r.keys(), r.values()))
+                if op != 'gp' and ctx.rng.random() < 0.12:
+                    ops.check_special_values(ctx, alg, iso, cfg, op, (kx, ky), cid)
                 if cfg.get('opts', {}).get('wrapper') and op != 'gp':
                     ctx.count('wrapper_configured_cases')
                 # the two infix operators among the seven, reached through their reflected entry points
